@@ -83,9 +83,75 @@ def _pad_cases(fails):
   return cases
 
 
+def _prefetch_cases(fails):
+  """prefetch_to_device: every source length 0..5, buffer size 1..3, failing position (none, or any position incl. the first
+  item and the end): exactly the items before the failure, in order, each once, then the source's exception (or a stop)"""
+  import jax
+  from flax import jax_utils
+  cases = 0
+  d = jax.local_device_count()
+
+  class Boom(Exception):
+    pass
+
+  def src(n, fail_at):
+    for i in range(n):
+      if i == fail_at:
+        raise Boom(i)
+      yield np.full((d, 1), i, np.float32)
+    if fail_at == n:
+      raise Boom(n)
+  for size in (1, 2, 3):
+    for n in range(0, 6):
+      for fail_at in [None] + list(range(0, n + 1)):
+        cases += 1
+        got, exc = [], None
+        try:
+          for b in jax_utils.prefetch_to_device(src(n, fail_at), size):
+            got.append(int(np.asarray(b)[0, 0]))
+        except Boom as e:
+          exc = e
+        want = list(range(n if fail_at is None else fail_at))
+        if got != want or (exc is None) != (fail_at is None):
+          fails.append(dict(inputs=dict(fn='prefetch_to_device', size=size, source_length=n, source_fails_at=fail_at),
+                            observed=f'consumer received {got} and {"no exception" if exc is None else "the exception"}; the source produced {want} before ' + ('stopping' if fail_at is None else 'raising'),
+                            violated='prefetch-delivers-in-order'))
+          return cases
+  return cases
+
+
+def _reshape_cases(fails):
+  """onehot / shard / stack_forest are the stated reshapes (onehot also for non-finite on / off values)"""
+  import jax
+  import jax.numpy as jnp
+  from flax.training import common_utils
+  cases = 0
+  d = jax.local_device_count()
+  for labels in (np.array([0, 2, 1]), np.array([[1, 0], [3, 3]]), np.array(2)):
+    for on, off in ((1.0, 0.0), (0.9, 0.025), (0.0, -np.inf), (np.inf, 0.0), (1.0, np.nan), (-2.0, 5.0)):
+      cases += 1
+      n = 4
+      got = np.asarray(common_utils.onehot(jnp.asarray(labels), n, on_value=on, off_value=off))
+      want = np.where(labels[..., None] == np.arange(n), np.float32(on), np.float32(off)).astype(np.float32)
+      if got.shape != want.shape or not np.array_equal(got, want, equal_nan=True):
+        fails.append(dict(inputs=dict(fn='onehot', labels=labels.tolist(), on_value=repr(on), off_value=repr(off)), observed=f'{got.tolist()} instead of {want.tolist()}'[:300], violated='reshape-helpers'))
+        return cases
+  cases += 1
+  x = {'a': np.arange(d * 3 * 2).reshape(d * 3, 2), 'b': np.arange(d * 3)}
+  sh = common_utils.shard(x)
+  if np.asarray(sh['a']).shape != (d, 3, 2) or not np.array_equal(np.asarray(sh['a']).reshape(d * 3, 2), x['a']) or not np.array_equal(np.asarray(sh['b']).reshape(-1), x['b']):
+    fails.append(dict(inputs=dict(fn='shard', devices=d), observed='shard is not the reshape to (devices, -1, ...)', violated='reshape-helpers'))
+  cases += 1
+  forest = [{'w': np.full((2,), i), 'k': {'v': np.array(i * 10)}} for i in range(3)]
+  st = common_utils.stack_forest(forest)
+  if not np.array_equal(np.asarray(st['w']), np.stack([f['w'] for f in forest])) or not np.array_equal(np.asarray(st['k']['v']), np.array([0, 10, 20])):
+    fails.append(dict(inputs=dict(fn='stack_forest'), observed='stack_forest is not the leaf-wise stack', violated='reshape-helpers'))
+  return cases
+
+
 def run(tier, seed):
   cases, fails = 0, []
-  for part in (_scan_cases, _pad_cases):
+  for part in (_scan_cases, _pad_cases, _prefetch_cases, _reshape_cases):
     try:
       cases += part(fails)
     except Exception:
@@ -95,7 +161,7 @@ def run(tier, seed):
       break
   import jax
   return dict(name=NAME, cases=cases, distinct=cases,
-              bound=f'scan_in_dim: all ordered axis tuples of length 1-3 of shapes (2,3,4), (2,3,2,2) x keepdims; pad_shard_unpad: batch 1..{2 * jax.local_device_count() + 1} on {jax.local_device_count()} host devices x min_device_batch {{None,1,2,3}}',
+              bound=f'scan_in_dim: all ordered axis tuples of length 1-3 of shapes (2,3,4), (2,3,2,2) x keepdims; pad_shard_unpad: batch 1..{2 * jax.local_device_count() + 1} on {jax.local_device_count()} host devices x min_device_batch {{None,1,2,3}}; prefetch_to_device: buffer size 1..3 x source length 0..5 x every failing position; onehot (3 label shapes x 6 on/off pairs incl. inf / nan), shard, stack_forest',
               failures=fails[:2], error=None)
 
 
